@@ -1008,8 +1008,8 @@ def target_base_agreement(fx):
     dest.join(last component) iff (dest is a directory) && !no_target_directory, else dest."""
     obs = []
     summ = {}
-    for fp, cfgadt in ((MAIN, OPTS), (WALKER, CONFIG)):
-        f = fx.fn(fp)
+    import views
+    for fp, cfgadt, f in ((MAIN, OPTS, views.main_view(fx)), (WALKER, CONFIG, views.walker_view(fx))):
         if f is None:
             obs.append(anchor_ob("R-SIB", fp))
             continue
@@ -1022,8 +1022,8 @@ def target_base_agreement(fx):
             gates = []
             ok_nt, _ = q.gated(f, bi, cfgadt, "no_target_directory", False)
             isdir = False
-            for probe in ("std::path::Path::is_dir", "libxcp::paths::is_dir"):
-                okd, _ = q.gated(f, bi, "call", probe, True)
+            for probe in ("std::path::Path::is_dir", "libxcp::paths::is_dir", "std::fs::Metadata::is_dir", "std::fs::FileType::is_dir"):
+                okd, _ = q.gated(f, bi, "call", probe, True, fx)
                 isdir = isdir or okd
             s = dict(no_target_directory_false=ok_nt, dest_is_dir=isdir)
         summ[fp] = s
